@@ -440,7 +440,16 @@ func (v *fnVC) havocLoc(x *Ex, loc string, st *State, pos token.Pos) {
 		if fct != nil && fct.HasAsg && !containsStr(fct.Assigns, name) && !containsStr(fct.Assigns, "*") && !containsStr(fct.Assigns, loc) {
 			nfr := v.callOrd["frame"]
 			v.callOrd["frame"] = nfr + 1
-			v.oblige("frame", fmt.Sprintf("frame#%d", nfr), fct.Props, "callee assigns ghost "+name+" which is outside `assigns`", v.pos(pos), v.reachNow(), tFalse(), st)
+			goal := tFalse()
+			if g.Heap && idxExpr != "" {
+				// an entry keyed by an object allocated in this function is not visible to the caller
+				c2 := x.child()
+				c2.vars = x.vars
+				if ks, _ := c.typeFromString(g.Type); ks.Kind == KRef {
+					goal = mk(sapp(">=", x.Term(idxExpr, ks).S, v.entry.next().S), sBool)
+				}
+			}
+			v.oblige("frame", fmt.Sprintf("frame#%d", nfr), fct.Props, "callee assigns ghost "+name+" which is outside `assigns`", v.pos(pos), v.reachNow(), goal, st)
 		}
 		return
 	}
